@@ -105,6 +105,35 @@ mod h {
         kani::cover!(r.is_some());
         kani::cover!(r.is_none());
     }
+    /// C04/C01: moving the departure EARLIER to the returned time never goes before the earliest allowed departure, keeps
+    /// every time window (arrivals only get earlier) and keeps the tour duration within its limit (given it was before)
+    #[kani::proof] #[kani::unwind(6)]
+    fn recede_keeps_windows_and_duration_limit() {
+        unsafe { RANGE = 15; }
+        let (m, mut acts, dep0, _latest) = any_tour::<3>();
+        let earliest = t();
+        kani::assume(earliest <= dep0);
+        acts[0].place.time = TimeWindow { start: earliest, end: Float::MAX };
+        kani::assume(replay(&m, &mut acts, dep0));
+        let total = acts[2].schedule.departure - dep0;
+        let limit: Option<Float> = if kani::any() { Some({ let v: u8 = kani::any(); v as Float }) } else { None };
+        kani::assume(limit.map_or(true, |l| total <= l));
+        // cached latest arrival at the first job (backward recurrence, U03a/L06): any arrival up to it keeps the rest feasible
+        let la2 = acts[2].place.time.end;
+        let la1 = { let x = la2 - m.dur[acts[1].place.location][acts[2].place.location] - acts[1].place.duration; if acts[1].place.time.end < x { acts[1].place.time.end } else { x } };
+        let actor = Arc::new(Actor { detail: ActorDetail { start: Some(VehiclePlace { location: 0, time: TimeInterval { earliest: Some(earliest), latest: None } }), end: None, time: TimeWindow { start: earliest, end: Float::MAX } } });
+        let rc = RouteContext { route: Route { actor, tour: Tour { activities: acts.to_vec() } }, state: RouteState { latest_arrival: vec![0., la1, la2], total_duration: Some(total), limit_duration: limit } };
+        let r = try_recede_departure_time(&rc);
+        if let Some(new_dep) = r {
+            assert!(new_dep < dep0, "post_recede_is_a_genuine_move_backwards");
+            assert!(new_dep >= earliest, "post_recede_respects_earliest_allowed_departure");
+            assert!(replay(&m, &mut acts, new_dep), "post_receded_tour_keeps_every_time_window");
+            let new_total = acts[2].schedule.departure - new_dep;
+            assert!(limit.map_or(true, |l| new_total <= l), "post_receded_tour_keeps_duration_limit");
+        }
+        kani::cover!(r.is_some() && limit.is_some());
+        kani::cover!(r.is_none());
+    }
     #[kani::proof] #[kani::unwind(6)] fn advance_whole_tour_2_jobs() { unsafe { RANGE = 15; } advance::<3>(true) }
     #[kani::proof] #[kani::unwind(6)] fn advance_first_leg_2_jobs() { advance::<3>(false) }
     #[kani::proof] #[kani::unwind(7)] fn advance_whole_tour_3_jobs() { unsafe { RANGE = 7; } advance::<4>(true) }
